@@ -375,3 +375,68 @@ fn read_through<T: Elem, Tr: ?Sized + TrX, MV: MX>(v: &AnyVec<Tr, MV>, r: u8, i:
         _ => { let n = v.len(); let mut c = v.at(if i == 0 { n - 1 } else { 0 }).clone(); let e = v.at(i); c.clone_from(&e); drop(e); c.downcast_ref::<T>().unwrap().id() }
     }
 }
+
+/// A user-defined value handle: reads go to a shared source, the first write access detaches it into a private copy (the library may
+/// only rely on the trait contract: `as_bytes_ptr` for reading, `as_bytes_mut_ptr` for writing - they need not be the same address).
+pub struct CowValue<T: Elem> { shared: *const T, private: std::mem::MaybeUninit<T>, pub detached: bool }
+impl<T: Elem> CowValue<T> {
+    pub fn new(source: &ManuallyDrop<T>) -> Self { CowValue { shared: &**source as *const T, private: std::mem::MaybeUninit::uninit(), detached: false } }
+}
+impl<T: Elem> any_vec::any_value::AnyValueSizeless for CowValue<T> {
+    type Type = any_vec::any_value::Unknown;
+    fn as_bytes_ptr(&self) -> *const u8 { if self.detached { self.private.as_ptr() as *const u8 } else { self.shared as *const u8 } }
+}
+impl<T: Elem> any_vec::any_value::AnyValueSizelessMut for CowValue<T> {
+    fn as_bytes_mut_ptr(&mut self) -> *mut u8 {
+        if !self.detached { unsafe { std::ptr::copy_nonoverlapping(self.shared, self.private.as_mut_ptr(), 1); } self.detached = true; }
+        self.private.as_mut_ptr() as *mut u8
+    }
+}
+impl<T: Elem> AnyValueTypeless for CowValue<T> { fn size(&self) -> usize { size_of::<T>() } }
+impl<T: Elem> AnyValue for CowValue<T> { fn value_typeid(&self) -> TypeId { TypeId::of::<T>() } }
+impl<T: Elem> AnyValueTypelessMut for CowValue<T> {}
+impl<T: Elem> AnyValueMut for CowValue<T> {}
+
+pub const N_USER_OPS: u8 = 4;
+
+impl<T: Elem + SatisfyTraits<Tr>, M: MX, Tr: TrX + ?Sized> World<T, M, Tr> {
+    /// C13 / C01: the user-defined handle swapped with element i (both dispatch orders), pushed, inserted at i
+    pub fn do_user_value(&mut self, op: u8, i: usize, out: &mut Out) {
+        let len = self.ma.len();
+        if T::SIZE == 0 || (op < 2 && i >= len) || (op == 3 && i > len) || (op >= 2 && !M::RESIZABLE && len >= self.a.capacity()) { out.outcome.push_str("n/a"); return; }
+        let source = ManuallyDrop::new({ let _w = elem::WindowOff::new(); T::fresh() });
+        let sid = source.id();
+        let mut cow_slot = Some(CowValue::<T>::new(&source));
+        let a = &mut self.a;
+        let cs = &mut cow_slot;
+        let r = guarded(|| match op {
+            0 => { let mut e = a.at_mut(i); e.swap(cs.as_mut().unwrap()); 0 }
+            1 => { let mut e = a.at_mut(i); cs.as_mut().unwrap().swap(&mut *e); 0 }
+            2 => { a.push(cs.take().unwrap()); 1 }
+            _ => { a.insert(i, cs.take().unwrap()); 1 }
+        });
+        match r {
+            Err(Caught::Injected) => { out.faulted = true; out.leak_ok = true; return; }
+            Err(Caught::Panic(m)) => { out.fail(Class::Vec, "unexpected-panic", format!("user-defined value handle, operation {op}: {m}")); out.faulted = true; out.leak_ok = true; return; }
+            Ok(1) => { match op { 2 => self.ma.push(Mv::Id(sid)), _ => self.ma.insert(i, Mv::Id(sid)) } out.outcome.push_str("ok"); return; }
+            Ok(_) => {}
+        }
+        // after a swap: the element holds the handle's value, the handle (detached) holds the element's old value, the shared source
+        // was only read
+        let old = match self.ma[i] { Mv::Id(x) => x, Mv::CloneOf(p) => p };
+        self.ma[i] = Mv::Id(sid);
+        if source.id() != sid || !source.intact() { out.fail(Class::Vec, "user-value-source-written", format!("the swap wrote through the handle's READ pointer: its shared source now shows id {} (was {sid})", source.id())); }
+        let cow = cow_slot.take().unwrap();
+        if !cow.detached {
+            out.fail(Class::Vec, "user-value-not-written", "the swap never asked the user-defined handle for its write pointer".into());
+            // whatever was written into the shared source is a live value nobody owns any more
+            let _ = guarded(move || { let mut s = source; unsafe { ManuallyDrop::drop(&mut s); } });
+            out.leak_ok = true;
+        } else {
+            let held = unsafe { cow.private.assume_init_read() };
+            if held.id() != old { out.fail(Class::Vec, "wrong-value", format!("after the swap the handle holds id {}, the element's old value was {old}", held.id())); }
+            let _ = guarded(move || drop(held));
+        }
+        out.outcome.push_str("ok");
+    }
+}
